@@ -1,4 +1,26 @@
-(* C07 — placeholder while the check is wired; replaced in this session *)
+(* C07 — retrieval is total and only ever narrows the callable's own signature
+   (the part that is logic). *)
 From Sigtools.Model Require Import Base Bind Algebra Visitor Discover.
-Theorem C07_placeholder : True. Proof. exact I. Qed.
-Print Assumptions C07_placeholder.
+From Sigtools.Proofs Require Import SmallModel Basics Discover.
+
+(* the fallback chain: discovery yields the plain signature or a well-formed one;
+   no error value exists in the model's result type *)
+Theorem C07_chain_total own plain have_ast calls :
+  discover own plain have_ast calls = plain \/
+  validate (params (discover own plain have_ast calls)) = true.
+Proof. exact (discover_total_wf own plain have_ast calls). Qed.
+Print Assumptions C07_chain_total.
+
+(* any unresolvable / signature-less / incompatible forwarding call => fallback *)
+Theorem C07_fallback own calls :
+  forward_sigs own calls = None <->
+  exists c, In c (filter relevant calls) /\ forall r, declared own c <> Some (Ok r).
+Proof. exact (forward_sigs_fails own calls). Qed.
+Print Assumptions C07_fallback.
+
+(* the narrowing decider used on every corpus object is complete for ALL calls *)
+Theorem C07_narrow_decider_complete a b :
+  incl_cex a b = None ->
+  forall c, noncolliding c a [b] = true -> accepts a c = true -> accepts b c = true.
+Proof. exact (incl_cex_complete a b). Qed.
+Print Assumptions C07_narrow_decider_complete.
